@@ -1925,9 +1925,9 @@ class Irc(IrcCommandDispatcher, log.Firewalled):
             # NOTE: Capabilities are requested in alphabetic order, because
             # sets are unordered, and their "order" is nondeterministic.
             # This is needed for the tests.
-            if new_caps:
-                self._requestCaps(new_caps)
-            else:
+            if not new_caps or not self._requestCaps(new_caps):
+                # Nothing to request (_requestCaps does not request
+                # echo-message on its own, without labeled-response)
                 self.endCapabilityNegociation(msg)
         else:
             log.warning('Bad CAP LS from server: %r', msg)
@@ -1971,6 +1971,8 @@ class Irc(IrcCommandDispatcher, log.Firewalled):
             self._requestCaps(common_supported_unrequested_capabilities)
 
     def _requestCaps(self, caps):
+        """Sends CAP REQ for the given capabilities. Returns whether
+        anything was requested."""
         caps = list(sorted(caps))
         cap_lines = []
         if 'echo-message' in caps \
@@ -1999,6 +2001,7 @@ class Irc(IrcCommandDispatcher, log.Firewalled):
         for cap_line in cap_lines:
             self.sendMsg(ircmsgs.IrcMsg(command='CAP',
                 args=('REQ', cap_line)))
+        return bool(cap_lines)
 
     def monitor(self, targets):
         """Increment a counter of how many callbacks monitor each target;
